@@ -1,6 +1,6 @@
 //verif:pkg .
 //verif:use fakes_client
-//verif:bound client side: one server answer - either a result that is an arbitrary (lazy symbolic) JSON document of depth <= 3 for tools/call and prompts/get, <= 2 (thorough 3) for the others, or an error object with symbolic code and message - delivered for the same operation (tools/list, tools/call, prompts/list, prompts/get, resources/list, resources/read) to the Streamable client (JSON answer and SSE answer), the legacy SSE client and the StdioClient (over in-memory pipes); outcomes compared pairwise: all fail or all succeed with equal values
+//verif:bound client side: one server answer - either a result that is an arbitrary (lazy symbolic) JSON document of depth <= 3 for tools/call and prompts/get, <= 2 for the others, or an error object with symbolic code and message - delivered for the same operation (tools/list, tools/call, prompts/list, prompts/get, resources/list, resources/read) to the Streamable client (JSON answer and SSE answer), the legacy SSE client and the StdioClient (over in-memory pipes); outcomes compared pairwise: all fail or all succeed with equal values
 //verif:assume error message wording is not compared (the property excludes it); the answers are well-formed JSON-RPC envelopes echoing the request id (malformed envelopes are C07's subject)
 package mcp
 
@@ -165,9 +165,9 @@ func H_C14_clients() {
 	op := vChoice("op", 6)
 	if !s.isError {
 		// depth 3 reaches the content items of a tool result and the messages of a prompt; the list
-		// results and resource contents are explored to depth 2 (thorough: 3)
+		// results and resource contents are explored to depth 2
 		depth := 2
-		if op == 1 || op == 3 || vTier() == 1 {
+		if op == 1 || op == 3 {
 			depth = 3
 		}
 		s.result = vJSON("result", depth)
